@@ -444,6 +444,17 @@ def compare(ctx, case, snaps, errs, out):
                 return
 
 
+def work(ctx, items):
+    drv = Driver()
+    lines, keep = [], []
+    for it in items:
+        run_history(ctx, lines, keep, it['cfg'], [tuple(o) for o in it['ops']], it['nbuild'], it.get('stop_only', False))
+    outs = drv.batch(lines)
+    for (case, snaps, errs), out in zip(keep, outs):
+        ctx.case(case)
+        compare(ctx, case, snaps, errs, out)
+
+
 def run(tier, seed, replay=None):
     ctx = Ctx('C01', tier, seed)
     ctx.stats['rule'] = ('histories = 1-12 surfaces appended in index order (all dyadic parameters, tilts/decentres, '
@@ -452,22 +463,19 @@ def run(tier, seed, replay=None):
                          'image_solve; a malformed stream with out-of-range indices; insertion/removal histories for '
                          'the stop and primary-wavelength clauses; distinct by history hash')
     aud = audit('C01')
-    drv = Driver()
-    lines, keep = [], []
+    items = []
     if replay:
-        run_history(ctx, lines, keep, replay['cfg'], [tuple(o) for o in replay['ops']], replay['nbuild'],
-                    replay.get('stop_only', False))
+        items.append({'cfg': replay['cfg'], 'ops': replay['ops'], 'nbuild': replay['nbuild'],
+                      'stop_only': replay.get('stop_only', False)})
     else:
         n = 300 if ctx.quick() else 20000
         for i in range(n):
             cfg, ops, nbuild = gen_history(ctx.rng, malformed=(i % 10 == 0))
-            run_history(ctx, lines, keep, cfg, ops, nbuild)
+            items.append({'cfg': cfg, 'ops': ops, 'nbuild': nbuild})
         for i in range(n // 3):
-            run_history(ctx, lines, keep, None, gen_stop_history(ctx.rng), 0, stop_only=True)
-    outs = drv.batch(lines)
-    for (case, snaps, errs), out in zip(keep, outs):
-        ctx.case(case)
-        compare(ctx, case, snaps, errs, out)
+            items.append({'cfg': None, 'ops': gen_stop_history(ctx.rng), 'nbuild': 0, 'stop_only': True})
+    from .core import run_parallel
+    run_parallel(ctx, 'harness.c01', 'work', items, nproc=4 if ctx.quick() else None)
     return finish(ctx, aud,
                   partial=['solve_places_ray and pickup_after_update: checked on the implementation for ordered '
                            'pickups/solves; theorems cover the single-step algebra'],
